@@ -14,6 +14,7 @@ import (
 	"encoding/json"
 	"errors"
 	"fmt"
+	"os"
 	"strings"
 
 	sentinel "github.com/alibaba/sentinel-golang/api"
@@ -48,7 +49,7 @@ type scenario struct {
 	Name   string
 	Setup  func()
 	Actors []actor
-	Three  bool // three threads: explored one preemption shallower
+	Three  bool // three threads, or two complete request lifecycles: explored one preemption shallower
 	obs    []string
 	errs0  int
 }
@@ -108,15 +109,35 @@ type modDef struct {
 }
 
 func mods() []modDef {
-	fl := func(id string) *flow.Rule { return &flow.Rule{ID: id, Resource: id[:1], Threshold: 0} }
+	// ids ending in "p" name permissive rules (the request passes through the rule's machinery)
+	perm := func(id string) bool { return id[len(id)-1] == 'p' }
+	fl := func(id string) *flow.Rule {
+		r := &flow.Rule{ID: id, Resource: id[:1], Threshold: 0}
+		if perm(id) {
+			r.Threshold, r.StatIntervalInMs = 1e9, 700 // standalone window: the standalone stat slot is exercised too
+		}
+		return r
+	}
 	is := func(id string) *isolation.Rule {
-		return &isolation.Rule{ID: id, Resource: id[:1], MetricType: isolation.Concurrency, Threshold: 1}
+		r := &isolation.Rule{ID: id, Resource: id[:1], MetricType: isolation.Concurrency, Threshold: 1}
+		if perm(id) {
+			r.Threshold = 1000000
+		}
+		return r
 	}
 	hs := func(id string) *hotspot.Rule {
-		return &hotspot.Rule{ID: id, Resource: id[:1], MetricType: hotspot.QPS, Threshold: 0, DurationInSec: 1}
+		r := &hotspot.Rule{ID: id, Resource: id[:1], MetricType: hotspot.QPS, Threshold: 0, DurationInSec: 1}
+		if perm(id) {
+			r.Threshold = 1000000
+		}
+		return r
 	}
 	br := func(id string) *cb.Rule {
-		return &cb.Rule{Id: id, Resource: id[:1], Strategy: cb.ErrorCount, RetryTimeoutMs: 1000000, MinRequestAmount: 1, StatIntervalMs: 10000, Threshold: 1}
+		r := &cb.Rule{Id: id, Resource: id[:1], Strategy: cb.ErrorCount, RetryTimeoutMs: 1000000, MinRequestAmount: 1, StatIntervalMs: 10000, Threshold: 1}
+		if perm(id) {
+			r.Threshold = 1000000
+		}
+		return r
 	}
 	var out []modDef
 	out = append(out, modDef{name: "flow",
@@ -265,6 +286,21 @@ func moduleScenarios(m modDef, quick bool) []*scenario {
 					{Name: w.name, Run: func() string { w.run(); return "" }}}})
 		}
 	}
+	// two requests through the module's rule check and statistics at the same time (per-value caches,
+	// breaker counters, gauges), admitted and blocked
+	setupPass := func() {
+		env.ResetAll(env.DefaultGeometry, 1700000000000)
+		m.load("bo", "cp") // a has no rule, b is blocked, c passes through a permissive rule
+		if m.afterLoad != nil {
+			m.afterLoad()
+		}
+	}
+	out = append(out, &scenario{Name: m.name + ": traffic(a) || traffic(a) (blocked)", Setup: setup, Three: true,
+		Actors: []actor{{Name: "t1", Run: traffic("a", true, m.trafficOp...), Allowed: []string{"blocked-by:ao"}}, {Name: "t2", Run: traffic("a", false, m.trafficOp...), Allowed: []string{"blocked-by:ao"}}}})
+	out = append(out, &scenario{Name: m.name + ": traffic(a) || traffic(b) (pass / blocked)", Setup: setupPass, Three: true,
+		Actors: []actor{{Name: "t1", Run: traffic("a", true, m.trafficOp...)}, {Name: "t2", Run: traffic("b", false, m.trafficOp...), Allowed: []string{"blocked-by:bo"}}}})
+	out = append(out, &scenario{Name: m.name + ": traffic(c) || traffic(c) (pass through a permissive rule)", Setup: setupPass, Three: true,
+		Actors: []actor{{Name: "t1", Run: traffic("c", true, m.trafficOp...), Allowed: []string{"pass"}}, {Name: "t2", Run: traffic("c", false, m.trafficOp...), Allowed: []string{"pass"}}}})
 	// two writers
 	out = append(out, &scenario{Name: m.name + ": LoadRulesOfResource(a) || LoadRulesOfResource(b)", Setup: setup,
 		Actors: []actor{{Name: "w1", Run: func() string { m.loadRes("a", "an"); return "" }}, {Name: "w2", Run: func() string { m.loadRes("b", "bn"); return "" }}}})
@@ -316,7 +352,10 @@ func generalScenarios() []*scenario {
 		{Name: "stat: traffic(b) || ResourceNodeList", Setup: warm, Actors: []actor{{Name: "t", Run: traffic("b", false), Allowed: []string{"pass"}},
 			{Name: "list", Run: func() string { return fmt.Sprint(len(stat.ResourceNodeList())) }}}},
 		{Name: "stat: inbound(a) || InboundNode getters", Setup: warm, Actors: []actor{{Name: "t", Run: traffic("a", false, in), Allowed: []string{"pass"}},
-			{Name: "getters", Run: func() string { n := stat.InboundNode(); return fmt.Sprint(n.GetQPS(base.MetricEventPass), n.CurrentConcurrency()) }}}},
+			{Name: "getters", Run: func() string {
+				n := stat.InboundNode()
+				return fmt.Sprint(n.GetQPS(base.MetricEventPass), n.CurrentConcurrency())
+			}}}},
 		// system module
 		{Name: "system: inbound(a) || LoadRules([sn])", Setup: sysSetup, Actors: []actor{{Name: "t", Run: traffic("a", false, in), Allowed: []string{"blocked-by:so", "blocked-by:sn"}},
 			{Name: "w", Run: func() string {
@@ -441,8 +480,12 @@ func run(c *props.Ctx) {
 	c.R.Bounds["scenarios"] = len(scs)
 	c.R.Bounds["preemption_bound"] = bound
 	c.R.Bounds["race_detector"] = "every explored schedule runs under the Go race detector (binary built with -race, scheduler invisible to it)"
+	only := os.Getenv("VERIF_ONLY")
 	for i, s := range scs {
 		if !c.Mine(i) {
+			continue
+		}
+		if only != "" && !strings.Contains(s.Name, only) {
 			continue
 		}
 		if c.Expired() {
@@ -466,6 +509,9 @@ func run(c *props.Ctx) {
 		}
 		if res.CapHit != "" {
 			c.R.Cap(res.CapHit)
+		}
+		if only != "" {
+			fmt.Fprintf(os.Stderr, "%-70s execs=%d steps=%d err=%s\n", s.Name, res.Execs, res.Steps, res.HarnessErr)
 		}
 		if i%13 == 0 {
 			c.R.Sample(map[string]interface{}{"scenario": s.Name, "schedules": res.Execs, "outcomes": len(res.Outcomes), "schedule": res.SampleSched})
